@@ -62,6 +62,27 @@ def oracle(ep, outs):
     return fails
 
 
+def wire_episodes(rng):
+    """identifiers on the wire, with the plugins that wrap the response writer in the chain and backends that send
+    an interim response first: answers with and without a body, HEAD, 204 — every one must carry the identifiers"""
+    from . import c01
+    eps = []
+    for feats in ("s", "ls", "l", "-"):
+        ep = ["px new round_robin 11 - %s" % feats]
+        for method, ops in (("GET", ["sh:Link:%s" % c01.enc("</s.css>; rel=preload"), "wh:103", "wh:200"]),
+                            ("GET", ["wh:103", "sh:Content-Length:0", "wh:200"]),
+                            ("HEAD", ["wh:103", "sh:Content-Length:5000", "wh:200"]),
+                            ("GET", ["wh:103", "wh:204"]),
+                            ("GET", ["wh:103", "wh:201", "w:10:3"]),
+                            ("GET", ["wh:200"]), ("GET", ["wh:404"]), ("HEAD", ["wh:200"])):
+            h = rng.choice([[], [("X-Request-Id", "client-77")], [("X-Trace-Id", "t-1")]])
+            for mode in ("direct", "via"):
+                ep.append("px x %s %s /p %s 0 cl %s" % (mode, method, c01.hdr_tok(h), ";".join(ops)))
+        ep.append("px close")
+        eps.append(ep)
+    return eps
+
+
 def check(ctx):
     ctx.assumptions += [
         "crypto/rand yields pairwise distinct 12-byte draws (id_injective turns that into distinct identifiers); the harness counts duplicates among all generated IDs it sees",
@@ -75,6 +96,10 @@ def check(ctx):
     n = 1500 if ctx.thorough() else 250
     episodes = C.load_corpus(ID) + [gen_episode(ctx.rng, ctx.thorough()) for _ in range(n)]
     bad = d.check(episodes, oracle=oracle, label="ids")
+    from . import c01
+    we = wire_episodes(ctx.rng)
+    C.Differential(ctx, binary, timeout=600, project=c01.project).check(we, oracle=c01.oracle, label="ids-wire")
+    ctx.cov["wire_episodes_with_interim_responses"] = len(we)
     paths = {}
     nontriv = set()
     if bad == 0:
